@@ -969,16 +969,16 @@ package formula
 //@ spec listok(l *NodeList[Expression], parent Expression) bool := l != nil ==> (forall i int :: 0 <= i && i < len(l.nodes) ==> sub(l.nodes[i], parent))
 //@ spec rec treeok(v Expression) bool := okx(v) && (is(v, *BinaryExpression) ? (as(v, *BinaryExpression).Operator != nil && sub(as(v, *BinaryExpression).Left, v) && sub(as(v, *BinaryExpression).Right, v)) : is(v, *PrefixUnaryExpression) ? (as(v, *PrefixUnaryExpression).Operator != nil && sub(as(v, *PrefixUnaryExpression).Operand, v)) : is(v, *ConditionalExpression) ? (sub(as(v, *ConditionalExpression).Condition, v) && sub(as(v, *ConditionalExpression).WhenTrue, v) && sub(as(v, *ConditionalExpression).WhenFalse, v)) : is(v, *ParenthesizedExpression) ? sub(as(v, *ParenthesizedExpression).Expression, v) : is(v, *TypeOfExpression) ? sub(as(v, *TypeOfExpression).Expression, v) : is(v, *SelectorExpression) ? (sub(as(v, *SelectorExpression).Expression, v) && as(v, *SelectorExpression).Name != nil) : is(v, *CallExpression) ? (sub(as(v, *CallExpression).Expression, v) && listok(as(v, *CallExpression).Arguments, v)) : is(v, *ArrayLiteralExpression) ? listok(as(v, *ArrayLiteralExpression).Elements, v) : true)
 
-// The evaluation log: r.world names the point in the sequence of evaluations; step/valOf/
+// The evaluation log: the ghost variable world names the point in the sequence of evaluations; step/valOf/
 // errOf name "the world after", "the value of" and "the error of" evaluating a node at a
 // point. They are names, not definitions: resolve introduces them (defines), and the
 // contracts of the node evaluators say which evaluations happen, in which order, and
 // which of the named values is handed back (C06, C07, C11).
-//@ ghost field Runner.world : int
+//@ ghost global world : int
 //@ spec step(w int, v Expression) int
 //@ spec valOf(w int, v Expression) any
 //@ spec errOf(w int, v Expression) any
-//@ frame evalFrame(r *Runner) := r.world, r.this, all(r.this)
+//@ frame evalFrame(r *Runner) := global(world), r.this, all(r.this)
 // rpre: the runner's data holds no typed-nil numbers; rpost: additionally the data map is the
 // same map as before, or was created because there was none.
 //@ spec rpre(r *Runner) bool := r != nil && (forall k string :: wfv(r.this[k]))
@@ -986,11 +986,11 @@ package formula
 
 //@ func (*Runner).resolve
 //@   tags [C03,C06,C07,C08,C16]
-//@   requires rpre(r) && treeok(v)
+//@   requires rpre(r) && !isnil(ctx) && treeok(v)
 //@   assigns evalFrame(r)
 //@   panics never
 //@   decreases refOf(v), 3
-//@   defines r.world == step(old(r.world), v) && res == valOf(old(r.world), v) && err == errOf(old(r.world), v)
+//@   defines world == step(old(world), v) && res == valOf(old(world), v) && err == errOf(old(world), v)
 //@   ensures[C03] err != nil ==> res == nil
 //@   ensures wfv(res) && rpost(r)
 
@@ -1021,7 +1021,7 @@ package formula
 
 //@ func (*Runner).resolveIdentifier
 //@   tags [C16,C03,C10]
-//@   requires rpre(r) && expr != nil
+//@   requires rpre(r) && !isnil(ctx) && expr != nil
 //@   panics never
 //@   noalloc
 //@   ensures result1 == nil && wfv(result0)
@@ -1044,58 +1044,47 @@ package formula
 // The conditional evaluates its condition and then exactly the selected branch (C06).
 //@ func (*Runner).resolveConditionalExpression
 //@   tags [C06,C03,C07]
-//@   requires rpre(r) && expr != nil && treeok(box(expr, *ConditionalExpression))
+//@   requires rpre(r) && !isnil(ctx) && expr != nil && treeok(box(expr, *ConditionalExpression))
 //@   assigns evalFrame(r)
 //@   panics never
 //@   decreases expr, 2
 //@   ensures[C03] result1 != nil ==> result0 == nil
 //@   ensures wfv(result0) && rpost(r)
-//@   ensures[C06] errOf(old(r.world), expr.Condition) != nil ==> result1 != nil && r.world == step(old(r.world), expr.Condition)
-//@   ensures[C06] errOf(old(r.world), expr.Condition) == nil && truthy(valOf(old(r.world), expr.Condition)) ==> r.world == step(step(old(r.world), expr.Condition), expr.WhenTrue) && result1 == errOf(step(old(r.world), expr.Condition), expr.WhenTrue) && (result1 == nil ==> result0 == valOf(step(old(r.world), expr.Condition), expr.WhenTrue))
-//@   ensures[C06] errOf(old(r.world), expr.Condition) == nil && !truthy(valOf(old(r.world), expr.Condition)) ==> r.world == step(step(old(r.world), expr.Condition), expr.WhenFalse) && result1 == errOf(step(old(r.world), expr.Condition), expr.WhenFalse) && (result1 == nil ==> result0 == valOf(step(old(r.world), expr.Condition), expr.WhenFalse))
+//@   ensures[C06] errOf(old(world), expr.Condition) != nil ==> result1 != nil && world == step(old(world), expr.Condition)
+//@   ensures[C06] errOf(old(world), expr.Condition) == nil && truthy(valOf(old(world), expr.Condition)) ==> world == step(step(old(world), expr.Condition), expr.WhenTrue) && result1 == errOf(step(old(world), expr.Condition), expr.WhenTrue) && (result1 == nil ==> result0 == valOf(step(old(world), expr.Condition), expr.WhenTrue))
+//@   ensures[C06] errOf(old(world), expr.Condition) == nil && !truthy(valOf(old(world), expr.Condition)) ==> world == step(step(old(world), expr.Condition), expr.WhenFalse) && result1 == errOf(step(old(world), expr.Condition), expr.WhenFalse) && (result1 == nil ==> result0 == valOf(step(old(world), expr.Condition), expr.WhenFalse))
 
 //@ func (*Runner).resolveParenthesizedExpression
 //@   tags [C03,C07]
-//@   requires rpre(r) && expr != nil && treeok(box(expr, *ParenthesizedExpression))
+//@   requires rpre(r) && !isnil(ctx) && expr != nil && treeok(box(expr, *ParenthesizedExpression))
 //@   assigns evalFrame(r)
 //@   panics never
 //@   decreases expr, 2
 //@   ensures[C03] result1 != nil ==> result0 == nil
 //@   ensures wfv(result0) && rpost(r)
-//@   ensures r.world == step(old(r.world), expr.Expression) && result1 == errOf(old(r.world), expr.Expression) && (result1 == nil ==> result0 == valOf(old(r.world), expr.Expression))
+//@   ensures world == step(old(world), expr.Expression) && result1 == errOf(old(world), expr.Expression) && (result1 == nil ==> result0 == valOf(old(world), expr.Expression))
 
 //@ func (*Runner).resolveTypeofExpression
 //@   tags [C03]
-//@   requires rpre(r) && expr != nil && treeok(box(expr, *TypeOfExpression))
+//@   requires rpre(r) && !isnil(ctx) && expr != nil && treeok(box(expr, *TypeOfExpression))
 //@   assigns evalFrame(r)
 //@   panics never
 //@   decreases expr, 2
 //@   ensures[C03] result1 != nil ==> result0 == nil
 //@   ensures wfv(result0) && rpost(r)
-//@   ensures r.world == step(old(r.world), expr.Expression)
-
-// Calls (C11). TODO(verify): the reflective call is not yet verified; until it is, this contract is
-// trusted (listed as an assumption in the evidence).
-//@ func (*Runner).resolveCallExpression
-//@   trusted
-//@   tags [C03,C11]
-//@   requires rpre(r) && expr != nil && treeok(box(expr, *CallExpression))
-//@   assigns evalFrame(r)
-//@   panics never
-//@   decreases expr, 2
-//@   ensures wfv(result0) && rpost(r)
+//@   ensures world == step(old(world), expr.Expression)
 
 // Assignment (C07): only to a bare $-name; evaluates the right side once, binds it, yields it.
 //@ func (*Runner).resolveEqualBinaryExpression
 //@   tags [C07,C03,C20]
-//@   requires rpre(r) && treeok(left) && treeok(right)
+//@   requires rpre(r) && !isnil(ctx) && treeok(left) && treeok(right)
 //@   assigns evalFrame(r)
 //@   panics never
 //@   decreases max(refOf(left), refOf(right)) + 1, 1
 //@   ensures wfv(result0) && rpost(r)
-//@   ensures[C07] !(is(left, *Identifier) && hasPrefix(as(left, *Identifier).Value, "$")) ==> result1 != nil && r.world == old(r.world) && r.this == old(r.this) && (forall k string :: r.this[k] == old(r.this[k]))
-//@   ensures[C07] is(left, *Identifier) && hasPrefix(as(left, *Identifier).Value, "$") ==> r.world == step(old(r.world), right) && result1 == errOf(old(r.world), right)
-//@   ensures[C07] is(left, *Identifier) && hasPrefix(as(left, *Identifier).Value, "$") && result1 == nil ==> result0 == valOf(old(r.world), right) && r.this != nil && r.this[as(left, *Identifier).Value] == result0
+//@   ensures[C07] !(is(left, *Identifier) && hasPrefix(as(left, *Identifier).Value, "$")) ==> result1 != nil && world == old(world) && r.this == old(r.this) && (forall k string :: r.this[k] == old(r.this[k]))
+//@   ensures[C07] is(left, *Identifier) && hasPrefix(as(left, *Identifier).Value, "$") ==> world == step(old(world), right) && result1 == errOf(old(world), right)
+//@   ensures[C07] is(left, *Identifier) && hasPrefix(as(left, *Identifier).Value, "$") && result1 == nil ==> result0 == valOf(old(world), right) && r.this != nil && r.this[as(left, *Identifier).Value] == result0
 
 // builtin table entries are proper values
 //@ axiom forall k any :: wfv(builtinVal(k))
@@ -1108,38 +1097,38 @@ package formula
 // operands in source order.
 //@ func (*Runner).resolveBinaryExpression
 //@   tags [C06,C07,C03,C04,C05]
-//@   requires rpre(r) && expr != nil && treeok(box(expr, *BinaryExpression))
+//@   requires rpre(r) && !isnil(ctx) && expr != nil && treeok(box(expr, *BinaryExpression))
 //@   assigns evalFrame(r)
 //@   panics never
 //@   decreases expr, 2
 //@   ensures wfv(result0) && rpost(r)
-//@   ensures[C07] expr.Operator.Token != SK_Equals && errOf(old(r.world), expr.Left) != nil ==> result1 != nil && r.world == step(old(r.world), expr.Left)
-//@   ensures[C07] expr.Operator.Token != SK_Equals && errOf(old(r.world), expr.Left) == nil ==> r.world == step(step(old(r.world), expr.Left), expr.Right)
-//@   ensures[C07] expr.Operator.Token != SK_Equals && errOf(old(r.world), expr.Left) == nil && errOf(step(old(r.world), expr.Left), expr.Right) != nil ==> result1 != nil
-//@   ensures[C06] expr.Operator.Token == SK_AmpersandAmpersand && errOf(old(r.world), expr.Left) == nil && errOf(step(old(r.world), expr.Left), expr.Right) == nil ==> result1 == nil && result0 == (truthy(valOf(old(r.world), expr.Left)) ? valOf(step(old(r.world), expr.Left), expr.Right) : valOf(old(r.world), expr.Left))
-//@   ensures[C06] expr.Operator.Token == SK_BarBar && errOf(old(r.world), expr.Left) == nil && errOf(step(old(r.world), expr.Left), expr.Right) == nil ==> result1 == nil && result0 == (truthy(valOf(old(r.world), expr.Left)) ? valOf(old(r.world), expr.Left) : valOf(step(old(r.world), expr.Left), expr.Right))
-//@   ensures[C06] expr.Operator.Token == SK_QuestionQuestion && errOf(old(r.world), expr.Left) == nil && errOf(step(old(r.world), expr.Left), expr.Right) == nil ==> result1 == nil && result0 == (isNullAny(valOf(old(r.world), expr.Left)) ? valOf(step(old(r.world), expr.Left), expr.Right) : valOf(old(r.world), expr.Left))
-//@   ensures[C07] expr.Operator.Token == SK_Comma && errOf(old(r.world), expr.Left) == nil && errOf(step(old(r.world), expr.Left), expr.Right) == nil ==> result1 == nil && result0 == valOf(step(old(r.world), expr.Left), expr.Right)
+//@   ensures[C07] expr.Operator.Token != SK_Equals && errOf(old(world), expr.Left) != nil ==> result1 != nil && world == step(old(world), expr.Left)
+//@   ensures[C07] expr.Operator.Token != SK_Equals && errOf(old(world), expr.Left) == nil ==> world == step(step(old(world), expr.Left), expr.Right)
+//@   ensures[C07] expr.Operator.Token != SK_Equals && errOf(old(world), expr.Left) == nil && errOf(step(old(world), expr.Left), expr.Right) != nil ==> result1 != nil
+//@   ensures[C06] expr.Operator.Token == SK_AmpersandAmpersand && errOf(old(world), expr.Left) == nil && errOf(step(old(world), expr.Left), expr.Right) == nil ==> result1 == nil && result0 == (truthy(valOf(old(world), expr.Left)) ? valOf(step(old(world), expr.Left), expr.Right) : valOf(old(world), expr.Left))
+//@   ensures[C06] expr.Operator.Token == SK_BarBar && errOf(old(world), expr.Left) == nil && errOf(step(old(world), expr.Left), expr.Right) == nil ==> result1 == nil && result0 == (truthy(valOf(old(world), expr.Left)) ? valOf(old(world), expr.Left) : valOf(step(old(world), expr.Left), expr.Right))
+//@   ensures[C06] expr.Operator.Token == SK_QuestionQuestion && errOf(old(world), expr.Left) == nil && errOf(step(old(world), expr.Left), expr.Right) == nil ==> result1 == nil && result0 == (isNullAny(valOf(old(world), expr.Left)) ? valOf(step(old(world), expr.Left), expr.Right) : valOf(old(world), expr.Left))
+//@   ensures[C07] expr.Operator.Token == SK_Comma && errOf(old(world), expr.Left) == nil && errOf(step(old(world), expr.Left), expr.Right) == nil ==> result1 == nil && result0 == valOf(step(old(world), expr.Left), expr.Right)
 //@   at call (*Runner).resolveEqualBinaryExpression: assert[C07] expr.Operator.Token == SK_Equals && left == expr.Left && right == expr.Right
-//@   at call (*Runner).resolveLessThanBinaryExpressino: assert[C05] expr.Operator.Token == SK_LessThan && v1 == valOf(old(r.world), expr.Left) && v2 == valOf(step(old(r.world), expr.Left), expr.Right)
-//@   at call (*Runner).resolveGreaterThanBinaryExpressino: assert[C05] expr.Operator.Token == SK_GreaterThan && v1 == valOf(old(r.world), expr.Left) && v2 == valOf(step(old(r.world), expr.Left), expr.Right)
-//@   at call (*Runner).resolveLessThanEqualsBinaryExpressino: assert[C05] expr.Operator.Token == SK_LessThanEquals && v1 == valOf(old(r.world), expr.Left) && v2 == valOf(step(old(r.world), expr.Left), expr.Right)
-//@   at call (*Runner).resolveGreaterThanEqualsBinaryExpressino: assert[C05] expr.Operator.Token == SK_GreaterThanEquals && v1 == valOf(old(r.world), expr.Left) && v2 == valOf(step(old(r.world), expr.Left), expr.Right)
-//@   at call (*Runner).resolvePlusBinaryExpression: assert[C04] expr.Operator.Token == SK_Plus && v1 == valOf(old(r.world), expr.Left) && v2 == valOf(step(old(r.world), expr.Left), expr.Right)
-//@   at call (*Runner).resolveMinusBinaryExpressino: assert[C04] expr.Operator.Token == SK_Minus && v1 == valOf(old(r.world), expr.Left) && v2 == valOf(step(old(r.world), expr.Left), expr.Right)
-//@   at call (*Runner).resolveAsteriskBinaryExpressino: assert[C04] expr.Operator.Token == SK_Asterisk && v1 == valOf(old(r.world), expr.Left) && v2 == valOf(step(old(r.world), expr.Left), expr.Right)
-//@   at call (*Runner).resolveSlashBinaryExpression: assert[C04] expr.Operator.Token == SK_Slash && v1 == valOf(old(r.world), expr.Left) && v2 == valOf(step(old(r.world), expr.Left), expr.Right)
-//@   at call (*Runner).resolvePercentBinaryExpression: assert[C04] expr.Operator.Token == SK_Percent && v1 == valOf(old(r.world), expr.Left) && v2 == valOf(step(old(r.world), expr.Left), expr.Right)
-//@   at call (*Runner).resolveAmpersandBinaryExpression: assert[C18] expr.Operator.Token == SK_Ampersand && v1 == valOf(old(r.world), expr.Left) && v2 == valOf(step(old(r.world), expr.Left), expr.Right)
-//@   at call (*Runner).resolveBarBinaryExpression: assert[C18] expr.Operator.Token == SK_Bar && v1 == valOf(old(r.world), expr.Left) && v2 == valOf(step(old(r.world), expr.Left), expr.Right)
-//@   at call (*Runner).resolveCaretBinaryExpression: assert[C18] expr.Operator.Token == SK_Caret && v1 == valOf(old(r.world), expr.Left) && v2 == valOf(step(old(r.world), expr.Left), expr.Right)
-//@   at call (*Runner).resolveAmpersandAmpersandBinaryExpression: assert[C06] expr.Operator.Token == SK_AmpersandAmpersand && v1 == valOf(old(r.world), expr.Left) && v2 == valOf(step(old(r.world), expr.Left), expr.Right)
-//@   at call (*Runner).resolveBarBarBinaryExpression: assert[C06] expr.Operator.Token == SK_BarBar && v1 == valOf(old(r.world), expr.Left) && v2 == valOf(step(old(r.world), expr.Left), expr.Right)
-//@   at call (*Runner).resolveQuestionQuestionBinaryExpression: assert[C06] expr.Operator.Token == SK_QuestionQuestion && v1 == valOf(old(r.world), expr.Left) && v2 == valOf(step(old(r.world), expr.Left), expr.Right)
-//@   at call (*Runner).resolveEqualsEqualsBinaryExpression: assert[C05] expr.Operator.Token == SK_EqualsEquals && v1 == valOf(old(r.world), expr.Left) && v2 == valOf(step(old(r.world), expr.Left), expr.Right)
-//@   at call (*Runner).resolveNotEqualsBinaryExpression: assert[C05] expr.Operator.Token == SK_ExclamationEquals && v1 == valOf(old(r.world), expr.Left) && v2 == valOf(step(old(r.world), expr.Left), expr.Right)
-//@   at call (*Runner).resolveEqualsEqualsEqualsBinaryExpression: assert[C05] expr.Operator.Token == SK_EqualsEqualsEquals && v1 == valOf(old(r.world), expr.Left) && v2 == valOf(step(old(r.world), expr.Left), expr.Right)
-//@   at call (*Runner).resolveNotEqualsEqualsBinaryExpression: assert[C05] expr.Operator.Token == SK_ExclamationEqualsEquals && v1 == valOf(old(r.world), expr.Left) && v2 == valOf(step(old(r.world), expr.Left), expr.Right)
+//@   at call (*Runner).resolveLessThanBinaryExpressino: assert[C05] expr.Operator.Token == SK_LessThan && v1 == valOf(old(world), expr.Left) && v2 == valOf(step(old(world), expr.Left), expr.Right)
+//@   at call (*Runner).resolveGreaterThanBinaryExpressino: assert[C05] expr.Operator.Token == SK_GreaterThan && v1 == valOf(old(world), expr.Left) && v2 == valOf(step(old(world), expr.Left), expr.Right)
+//@   at call (*Runner).resolveLessThanEqualsBinaryExpressino: assert[C05] expr.Operator.Token == SK_LessThanEquals && v1 == valOf(old(world), expr.Left) && v2 == valOf(step(old(world), expr.Left), expr.Right)
+//@   at call (*Runner).resolveGreaterThanEqualsBinaryExpressino: assert[C05] expr.Operator.Token == SK_GreaterThanEquals && v1 == valOf(old(world), expr.Left) && v2 == valOf(step(old(world), expr.Left), expr.Right)
+//@   at call (*Runner).resolvePlusBinaryExpression: assert[C04] expr.Operator.Token == SK_Plus && v1 == valOf(old(world), expr.Left) && v2 == valOf(step(old(world), expr.Left), expr.Right)
+//@   at call (*Runner).resolveMinusBinaryExpressino: assert[C04] expr.Operator.Token == SK_Minus && v1 == valOf(old(world), expr.Left) && v2 == valOf(step(old(world), expr.Left), expr.Right)
+//@   at call (*Runner).resolveAsteriskBinaryExpressino: assert[C04] expr.Operator.Token == SK_Asterisk && v1 == valOf(old(world), expr.Left) && v2 == valOf(step(old(world), expr.Left), expr.Right)
+//@   at call (*Runner).resolveSlashBinaryExpression: assert[C04] expr.Operator.Token == SK_Slash && v1 == valOf(old(world), expr.Left) && v2 == valOf(step(old(world), expr.Left), expr.Right)
+//@   at call (*Runner).resolvePercentBinaryExpression: assert[C04] expr.Operator.Token == SK_Percent && v1 == valOf(old(world), expr.Left) && v2 == valOf(step(old(world), expr.Left), expr.Right)
+//@   at call (*Runner).resolveAmpersandBinaryExpression: assert[C18] expr.Operator.Token == SK_Ampersand && v1 == valOf(old(world), expr.Left) && v2 == valOf(step(old(world), expr.Left), expr.Right)
+//@   at call (*Runner).resolveBarBinaryExpression: assert[C18] expr.Operator.Token == SK_Bar && v1 == valOf(old(world), expr.Left) && v2 == valOf(step(old(world), expr.Left), expr.Right)
+//@   at call (*Runner).resolveCaretBinaryExpression: assert[C18] expr.Operator.Token == SK_Caret && v1 == valOf(old(world), expr.Left) && v2 == valOf(step(old(world), expr.Left), expr.Right)
+//@   at call (*Runner).resolveAmpersandAmpersandBinaryExpression: assert[C06] expr.Operator.Token == SK_AmpersandAmpersand && v1 == valOf(old(world), expr.Left) && v2 == valOf(step(old(world), expr.Left), expr.Right)
+//@   at call (*Runner).resolveBarBarBinaryExpression: assert[C06] expr.Operator.Token == SK_BarBar && v1 == valOf(old(world), expr.Left) && v2 == valOf(step(old(world), expr.Left), expr.Right)
+//@   at call (*Runner).resolveQuestionQuestionBinaryExpression: assert[C06] expr.Operator.Token == SK_QuestionQuestion && v1 == valOf(old(world), expr.Left) && v2 == valOf(step(old(world), expr.Left), expr.Right)
+//@   at call (*Runner).resolveEqualsEqualsBinaryExpression: assert[C05] expr.Operator.Token == SK_EqualsEquals && v1 == valOf(old(world), expr.Left) && v2 == valOf(step(old(world), expr.Left), expr.Right)
+//@   at call (*Runner).resolveNotEqualsBinaryExpression: assert[C05] expr.Operator.Token == SK_ExclamationEquals && v1 == valOf(old(world), expr.Left) && v2 == valOf(step(old(world), expr.Left), expr.Right)
+//@   at call (*Runner).resolveEqualsEqualsEqualsBinaryExpression: assert[C05] expr.Operator.Token == SK_EqualsEqualsEquals && v1 == valOf(old(world), expr.Left) && v2 == valOf(step(old(world), expr.Left), expr.Right)
+//@   at call (*Runner).resolveNotEqualsEqualsBinaryExpression: assert[C05] expr.Operator.Token == SK_ExclamationEqualsEquals && v1 == valOf(old(world), expr.Left) && v2 == valOf(step(old(world), expr.Left), expr.Right)
 
 // Bit operators (C18): on the truncated 64-bit integer values of the operands.
 //@ func (*Runner).resolveAmpersandBinaryExpression
@@ -1172,19 +1161,19 @@ package formula
 // Unary operators.
 //@ func (*Runner).resolvePrefixUnaryExpression
 //@   tags [C06,C18,C03]
-//@   requires rpre(r) && expr != nil && treeok(box(expr, *PrefixUnaryExpression))
+//@   requires rpre(r) && !isnil(ctx) && expr != nil && treeok(box(expr, *PrefixUnaryExpression))
 //@   assigns evalFrame(r)
 //@   panics never
 //@   decreases expr, 2
 //@   ensures[C03] result1 != nil ==> result0 == nil
 //@   ensures wfv(result0) && rpost(r)
-//@   ensures r.world == step(old(r.world), expr.Operand)
-//@   ensures errOf(old(r.world), expr.Operand) != nil ==> result1 != nil
-//@   at call (*Runner).resolveExclamationUnaryExpression: assert[C06] expr.Operator.Token == SK_Exclamation && v == valOf(old(r.world), expr.Operand)
-//@   at call (*Runner).resolveExclamationExclamationUnaryExpression: assert[C06] expr.Operator.Token == SK_ExclamationExclamation && v == valOf(old(r.world), expr.Operand)
-//@   at call (*Runner).resolveTildeUnaryExpression: assert[C18] expr.Operator.Token == SK_Tilde && v == valOf(old(r.world), expr.Operand)
-//@   at call (*Runner).resolveMinusUnaryExpression: assert expr.Operator.Token == SK_Minus && v == valOf(old(r.world), expr.Operand)
-//@   at call (*Runner).resolvePlusUnaryExpression: assert expr.Operator.Token == SK_Plus && v == valOf(old(r.world), expr.Operand)
+//@   ensures world == step(old(world), expr.Operand)
+//@   ensures errOf(old(world), expr.Operand) != nil ==> result1 != nil
+//@   at call (*Runner).resolveExclamationUnaryExpression: assert[C06] expr.Operator.Token == SK_Exclamation && v == valOf(old(world), expr.Operand)
+//@   at call (*Runner).resolveExclamationExclamationUnaryExpression: assert[C06] expr.Operator.Token == SK_ExclamationExclamation && v == valOf(old(world), expr.Operand)
+//@   at call (*Runner).resolveTildeUnaryExpression: assert[C18] expr.Operator.Token == SK_Tilde && v == valOf(old(world), expr.Operand)
+//@   at call (*Runner).resolveMinusUnaryExpression: assert expr.Operator.Token == SK_Minus && v == valOf(old(world), expr.Operand)
+//@   at call (*Runner).resolvePlusUnaryExpression: assert expr.Operator.Token == SK_Plus && v == valOf(old(world), expr.Operand)
 
 //@ func (*Runner).resolvePlusUnaryExpression
 //@   tags [C03]
@@ -1210,17 +1199,17 @@ package formula
 // Array literals (C07): elements left to right, once each.
 //@ func (*Runner).resolveArrayLiteralExpression
 //@   tags [C07,C03]
-//@   requires rpre(r) && expr != nil && treeok(box(expr, *ArrayLiteralExpression))
+//@   requires rpre(r) && !isnil(ctx) && expr != nil && treeok(box(expr, *ArrayLiteralExpression))
 //@   assigns evalFrame(r)
 //@   panics never
 //@   decreases expr, 2
 //@   ensures[C03] result1 != nil ==> result0 == nil
 //@   ensures wfv(result0) && rpost(r)
-//@   ensures[C07] result1 == nil && expr.Elements != nil ==> r.world == stepN(old(r.world), expr.Elements, len(expr.Elements.nodes)) && is(result0, []interface{}) && len(as(result0, []interface{})) == len(expr.Elements.nodes)
-//@   ensures[C07] result1 == nil && expr.Elements != nil ==> (forall j int :: 0 <= j && j < len(expr.Elements.nodes) ==> as(result0, []interface{})[j] == valOf(stepN(old(r.world), expr.Elements, j), expr.Elements.nodes[j]))
+//@   ensures[C07] result1 == nil && expr.Elements != nil ==> world == stepN(old(world), expr.Elements, len(expr.Elements.nodes)) && is(result0, []interface{}) && len(as(result0, []interface{})) == len(expr.Elements.nodes)
+//@   ensures[C07] result1 == nil && expr.Elements != nil ==> (forall j int :: 0 <= j && j < len(expr.Elements.nodes) ==> as(result0, []interface{})[j] == valOf(stepN(old(world), expr.Elements, j), expr.Elements.nodes[j]))
 //@   loop 1: invariant rpre(r) && (r.this == old(r.this) || (old(r.this) == nil && fresh(r.this))) && expr.Elements != nil && 0 <= i && i <= len(expr.Elements.nodes) && len(list) == i
-//@           invariant[C07] r.world == stepN(old(r.world), expr.Elements, i)
-//@           invariant[C07] forall j int :: 0 <= j && j < i ==> list[j] == valOf(stepN(old(r.world), expr.Elements, j), expr.Elements.nodes[j])
+//@           invariant[C07] world == stepN(old(world), expr.Elements, i)
+//@           invariant[C07] forall j int :: 0 <= j && j < i ==> list[j] == valOf(stepN(old(world), expr.Elements, j), expr.Elements.nodes[j])
 //@           decreases len(expr.Elements.nodes) - i
 
 // ---------------------------------------------------------------------------
@@ -1587,13 +1576,13 @@ package formula
 // auxiliary store is neither read nor written (it is outside the frame) (C20).
 //@ func (*Runner).Resolve
 //@   tags [C03,C20,C04,C07]
-//@   requires rpre(r) && treeok(v)
+//@   requires rpre(r) && !isnil(ctx) && treeok(v)
 //@   assigns evalFrame(r)
 //@   panics never
 //@   ensures[C03] (result1 != nil ==> result0 == nil) && rpost(r)
-//@   ensures[C20,C07] r.world == step(old(r.world), v) && result1 == errOf(old(r.world), v)
-//@   ensures[C04] result1 == nil && num(valOf(old(r.world), v)) ==> result0 == box(d2f(nval(valOf(old(r.world), v))), float64)
-//@   ensures[C20] result1 == nil && !num(valOf(old(r.world), v)) ==> result0 == valOf(old(r.world), v)
+//@   ensures[C20,C07] world == step(old(world), v) && result1 == errOf(old(world), v)
+//@   ensures[C04] result1 == nil && num(valOf(old(world), v)) ==> result0 == box(d2f(nval(valOf(old(world), v))), float64)
+//@   ensures[C20] result1 == nil && !num(valOf(old(world), v)) ==> result0 == valOf(old(world), v)
 
 // ---------------------------------------------------------------------------
 // Names and member access (C16)
@@ -1618,13 +1607,194 @@ package formula
 
 //@ func (*Runner).resolveSelectorExpression
 //@   tags [C16,C03]
-//@   requires rpre(r) && expr != nil && treeok(box(expr, *SelectorExpression))
+//@   requires rpre(r) && !isnil(ctx) && expr != nil && treeok(box(expr, *SelectorExpression))
 //@   assigns evalFrame(r)
 //@   panics never
 //@   decreases expr, 2
 //@   ensures[C03] result1 != nil ==> result0 == nil
 //@   ensures wfv(result0) && rpost(r)
-//@   ensures r.world == step(old(r.world), expr.Expression)
-//@   ensures[C16] errOf(old(r.world), expr.Expression) != nil ==> result1 != nil
-//@   ensures[C16] errOf(old(r.world), expr.Expression) == nil && isNullAny(valOf(old(r.world), expr.Expression)) ==> (expr.Assert ? result1 != nil : (result1 == nil && result0 == nil))
-//@   ensures[C16] errOf(old(r.world), expr.Expression) == nil && strMap(valOf(old(r.world), expr.Expression)) ==> result1 == nil && result0 == (isNullAny(ptr(valOf(old(r.world), expr.Expression), map[string]interface{})[expr.Name.Value]) ? nil : ptr(valOf(old(r.world), expr.Expression), map[string]interface{})[expr.Name.Value])
+//@   ensures world == step(old(world), expr.Expression)
+//@   ensures[C16] errOf(old(world), expr.Expression) != nil ==> result1 != nil
+//@   ensures[C16] errOf(old(world), expr.Expression) == nil && isNullAny(valOf(old(world), expr.Expression)) ==> (expr.Assert ? result1 != nil : (result1 == nil && result0 == nil))
+//@   ensures[C16] errOf(old(world), expr.Expression) == nil && strMap(valOf(old(world), expr.Expression)) ==> result1 == nil && result0 == (isNullAny(ptr(valOf(old(world), expr.Expression), map[string]interface{})[expr.Name.Value]) ? nil : ptr(valOf(old(world), expr.Expression), map[string]interface{})[expr.Name.Value])
+
+// ---------------------------------------------------------------------------
+// Calls (C11): signature inspection, argument conversion, the reflective call
+// ---------------------------------------------------------------------------
+
+//@ func hasVariadicParameter
+//@   tags [C11,C03]
+//@   requires !isnil(funType) && rkind(rtId(funType)) == 19
+//@   panics never
+//@   noalloc
+//@   ensures[C11] result == tVariadic(rtId(funType))
+//@   ensures result ==> tNumIn(rtId(funType)) >= 1 && rkind(tParam(rtId(funType), tNumIn(rtId(funType)) - 1)) == 23
+
+//@ func firstParamIsContext
+//@   tags [C11,C03]
+//@   requires !isnil(funcType) && rkind(rtId(funcType)) == 19
+//@   panics never
+//@   noalloc
+//@   ensures[C11] result == (tNumIn(rtId(funcType)) > 0 && tParam(rtId(funcType), 0) == typeid(context.Context))
+
+// The dotted name of the callee (used in error messages only); structural recursion.
+// named: a name or a dotted path of names - the only callee forms a call accepts
+//@ spec rec named(v Expression) bool := is(v, *Identifier) || (is(v, *SelectorExpression) && named(as(v, *SelectorExpression).Expression))
+//@ func resolveCallNames
+//@   tags [C03,C11]
+//@   requires treeok(expr)
+//@   panics never
+//@   decreases refOf(expr)
+//@   ensures result1 != nil ==> len(result0) == 0
+//@   ensures[C11] (result1 == nil) == named(expr)
+
+//@ func resolveSelecotrNames
+//@   tags [C03,C10]
+//@   requires treeok(expr)
+//@   panics never
+//@   decreases refOf(expr)
+//@   ensures result1 != nil ==> len(result0) == 0
+
+// Argument conversion (C11). assignable/convOK/paramType are the reflect notions of the
+// assumed library contracts; conversion results are always assignable to the target type,
+// which is what makes the reflective call safe (C03).
+//@ globalfact len(basicNumberKind) == 7 && basicNumberKind[0] == 3 && basicNumberKind[1] == 4 && basicNumberKind[2] == 5 && basicNumberKind[3] == 6 && basicNumberKind[4] == 2 && basicNumberKind[5] == 13 && basicNumberKind[6] == 14
+// rtok: a proper (non-nil) reflect.Type value
+//@ spec rtok(t any) bool := isRType(t, rtId(t))
+//@ spec basicNumK(k int) bool := k == 2 || k == 3 || k == 4 || k == 5 || k == 6 || k == 13 || k == 14
+
+//@ func isBasicNumberKind
+//@   tags [C11,C03]
+//@   panics never
+//@   noalloc
+//@   ensures[C11] result == basicNumK(kind)
+//@   loop 1: invariant rangeindex >= -1 && rangeindex < len(basicNumberKind) && (forall i int :: 0 <= i && i <= rangeindex ==> basicNumberKind[i] != kind)
+//@           decreases len(basicNumberKind) - rangeindex
+
+// A number converts to a Go integer by truncation toward zero (exactly, when it fits 64 bits)
+// and to a float by the nearest value.
+//@ func convToBasicNumber
+//@   tags [C11,C03]
+//@   requires wfv(source) && rtok(target)
+//@   panics never
+//@   ensures result1 != nil ==> result0 == nil
+//@   ensures[C11] num(source) && basicNumK(rkind(rtId(target))) ==> result1 == nil && !isnil(result0) && rkind(typeOf(result0)) == rkind(rtId(target))
+//@   ensures[C11] num(source) && rkind(rtId(target)) == 6 && d2iOK(nval(source)) ==> result0 == box(d2i(nval(source)), int64)
+//@   ensures[C11] num(source) && rkind(rtId(target)) == 2 && d2iOK(nval(source)) ==> result0 == box(d2i(nval(source)), int)
+//@   ensures[C11] num(source) && rkind(rtId(target)) == 5 ==> result0 == box(f2i(d2f(nval(source))), int32)
+//@   ensures[C11] num(source) && rkind(rtId(target)) == 14 ==> result0 == box(d2f(nval(source)), float64)
+//@   ensures[C11] num(source) && rkind(rtId(target)) == 13 ==> result0 == box(f2f32(d2f(nval(source))), float32)
+//@   ensures[C03] !num(source) ==> result1 != nil
+
+//@ func convStructToTarget
+//@   tags [C11,C03,C19]
+//@   requires rtok(target)
+//@   panics never
+//@   ensures result1 != nil ==> result0 == nil
+//@   ensures[C11,C19] (result1 == nil) == (typeOf(source) == rtId(target))
+//@   ensures[C11,C19] result1 == nil ==> result0 == source
+
+// The conversion of one argument to a parameter type. Whatever it returns without error is
+// assignable to the target type (or is nil, which the caller replaces by the zero value).
+//@ func convTypeToTarget
+//@   tags [C11,C03]
+//@   requires wfv(source) && rtok(target)
+//@   panics never
+//@   decreases vdepth(source), 1
+//@   ensures result1 != nil ==> result0 == nil
+//@   ensures[C03,C11] result1 == nil && !isnil(result0) ==> assignable(typeOf(result0), rtId(target))
+//@   ensures[C11] rkind(rtId(target)) == 20 ==> (result1 == nil) == (isnil(source) || assignable(typeOf(source), rtId(target)))
+//@   ensures[C11] rkind(rtId(target)) == 20 && result1 == nil ==> result0 == source
+//@   ensures[C11,C19] rkind(rtId(target)) == 25 ==> (result1 == nil) == (typeOf(source) == rtId(target)) && (result1 == nil ==> result0 == source)
+//@   ensures[C11] num(source) && rtId(target) == typeid(int64) && d2iOK(nval(source)) ==> result1 == nil && result0 == box(d2i(nval(source)), int64)
+//@   ensures[C11] num(source) && rtId(target) == typeid(int) && d2iOK(nval(source)) ==> result1 == nil && result0 == box(d2i(nval(source)), int)
+//@   ensures[C11] num(source) && rtId(target) == typeid(float64) ==> result1 == nil && result0 == box(d2f(nval(source)), float64)
+//@   ensures[C11] isstr(source) && rtId(target) == typeid(string) ==> result1 == nil && result0 == source
+//@   ensures[C11] num(source) && rtId(target) == typeid(string) ==> result1 == nil && isstr(result0)
+
+//@ func convArrayTypeToTarget
+//@   tags [C11,C03]
+//@   requires wfv(source) && rtok(target) && rkind(rtId(target)) == 23
+//@   panics never
+//@   decreases vdepth(source), 0
+//@   ensures result1 != nil ==> result0 == nil
+//@   ensures[C03,C11] result1 == nil && !isnil(result0) ==> typeOf(result0) == rtId(target)
+//@   ensures[C11] isnil(source) ==> result0 == nil && result1 == nil
+//@   ensures[C03,C11] !isnil(source) && rkind(typeOf(source)) != 17 && rkind(typeOf(source)) != 23 ==> result1 != nil
+//@   loop 1: invariant 0 <= i && i <= vlen(source) && rvValid(sliceValue) && !rvRO(sliceValue) && rvType(sliceValue) == rtId(target)
+//@           invariant[C11] vlen(rvAny(sliceValue)) == i
+//@           decreases vlen(source) - i
+
+//@ func convMapToTarget
+//@   tags [C11,C03]
+//@   requires wfv(source) && rtok(target) && rkind(rtId(target)) == 21
+//@   panics never
+//@   decreases vdepth(source), 0
+//@   ensures result1 != nil ==> result0 == nil
+//@   ensures[C03,C11] result1 == nil && !isnil(result0) ==> typeOf(result0) == rtId(target)
+//@   ensures[C11] isnil(source) ==> result0 == nil && result1 == nil
+//@   ensures[C03,C11] !isnil(source) && rkind(typeOf(source)) != 21 ==> result1 != nil
+//@   loop 1: invariant iter != nil && fresh(iter) && iter.remaining >= 0 && mrType(iter) == typeOf(source) && !mrRO(iter) && mrDepth(iter) == vdepth(source)
+//@           invariant rvValid(result) && !rvRO(result) && rvType(result) == rtId(target)
+//@           decreases iter.remaining
+
+// f(a, xs...): the spread operand must be an array or slice; its elements become arguments.
+//@ func expandArrayArgument
+//@   tags [C11,C03]
+//@   requires wfv(v)
+//@   panics never
+//@   ensures[C11] (result1 == nil) == (!isnil(v) && (rkind(typeOf(v)) == 17 || rkind(typeOf(v)) == 23))
+//@   ensures[C11] result1 == nil ==> len(result0) == vlen(v)
+//@   ensures forall j int :: 0 <= j && j < len(result0) ==> wfv(result0[j])
+//@   ensures[C11] result1 == nil && is(v, []interface{}) ==> result0 == as(v, []interface{})
+//@   loop 1: invariant 0 <= i && i <= vlen(v) && len(result) == i && (forall j int :: 0 <= j && j < i ==> wfv(result[j]))
+//@           invariant[C11] is(v, []interface{}) ==> result == as(v, []interface{})[:i]
+//@           decreases vlen(v) - i
+
+// The call itself (C11). Wn: the point in the evaluation log after the callee expression and
+// all n arguments were evaluated, in source order. The host function is invoked at most once,
+// only at Wn, only when the signature fits; a misfit leaves the log at Wn with an error.
+//@ spec nargs(e *CallExpression) int := e.Arguments == nil ? 0 : len(e.Arguments.nodes)
+//@ spec Wn(e *CallExpression, w int) int := stepN(step(w, e.Expression), e.Arguments, nargs(e))
+//@ spec argsOK(e *CallExpression, w int) bool := forall j int :: 0 <= j && j < nargs(e) ==> errOf(stepN(step(w, e.Expression), e.Arguments, j), e.Arguments.nodes[j]) == nil
+//@ spec calledOnce(w0 int, w int, f any) bool := exists a []reflect.Value :: w == callStep(w0, f, a)
+//@ spec fnOK(f any) bool := isfn(f) && !isnil(fnOf(f))
+//@ spec hasCtx(t int) int := (tNumIn(t) > 0 && tParam(t, 0) == typeid(context.Context)) ? 1 : 0
+//@ spec countBad(e *CallExpression, t int) bool := (!tVariadic(t) || e.DotDotDotToken != nil) ? nargs(e) != tNumIn(t) - hasCtx(t) : nargs(e) < tNumIn(t) - hasCtx(t) - 1
+//@ spec misfitPre(e *CallExpression, f any) bool := !fnOK(f) || (e.DotDotDotToken != nil && !tVariadic(typeOf(f))) || countBad(e, typeOf(f))
+//@ spec misfit(e *CallExpression, f any) bool := misfitPre(e, f) || tNumOut(typeOf(f)) != 2 || tOut(typeOf(f), 1) != typeid(error)
+// what is known once the callee and all arguments have been evaluated
+//@ spec evald(r *Runner, e *CallExpression, f any, w0 int) bool := rpre(r) && world == Wn(e, w0) && errOf(w0, e.Expression) == nil && named(e.Expression) && argsOK(e, w0) && f == valOf(w0, e.Expression) && wfv(f)
+// what is known about the callee's type once the signature checks have passed
+//@ spec sigok(e *CallExpression, f any, ft any, variadic bool, n int, hc int, min int) bool := fnOK(f) && rtok(ft) && rtId(ft) == typeOf(f) && rkind(typeOf(f)) == 19 && variadic == tVariadic(typeOf(f)) && n == tNumIn(typeOf(f)) && hc == hasCtx(typeOf(f)) && min == n - hc && !misfitPre(e, f) && (variadic ==> n >= 1 && rkind(tParam(typeOf(f), n - 1)) == 23)
+
+//@ func (*Runner).resolveCallExpression
+//@   tags [C11,C03,C07]
+//@   requires rpre(r) && !isnil(ctx) && expr != nil && treeok(box(expr, *CallExpression))
+//@   assigns evalFrame(r)
+//@   panics never
+//@   decreases expr, 2
+//@   ensures wfv(result0) && rpost(r)
+//@   ensures[C11] errOf(old(world), expr.Expression) != nil ==> result1 != nil && world == step(old(world), expr.Expression)
+//@   ensures[C11] errOf(old(world), expr.Expression) == nil && !named(expr.Expression) ==> result1 != nil && world == step(old(world), expr.Expression)
+//@   ensures[C11] errOf(old(world), expr.Expression) == nil && named(expr.Expression) && argsOK(expr, old(world)) ==> (result1 != nil && world == Wn(expr, old(world))) || calledOnce(Wn(expr, old(world)), world, valOf(old(world), expr.Expression))
+//@   ensures[C11] errOf(old(world), expr.Expression) == nil && named(expr.Expression) && argsOK(expr, old(world)) && misfit(expr, valOf(old(world), expr.Expression)) ==> result1 != nil && world == Wn(expr, old(world))
+//@   at call (reflect.Value).Call: assert[C11] world == Wn(expr, old(world)) && rvAny(recv) == valOf(old(world), expr.Expression) && !misfit(expr, rvAny(recv))
+//@   loop 1: invariant rpre(r) && (r.this == old(r.this) || (old(r.this) == nil && fresh(r.this))) && expr.Arguments != nil && 0 <= i@L1 && i@L1 <= len(expr.Arguments.nodes) && len(args) == i@L1
+//@           invariant errOf(old(world), expr.Expression) == nil && named(expr.Expression) && fun == valOf(old(world), expr.Expression) && wfv(fun)
+//@           invariant[C11,C07] world == stepN(step(old(world), expr.Expression), expr.Arguments, i@L1)
+//@           invariant[C11,C07] forall j int :: 0 <= j && j < i@L1 ==> wfv(args[j]) && errOf(stepN(step(old(world), expr.Expression), expr.Arguments, j), expr.Arguments.nodes[j]) == nil && args[j] == valOf(stepN(step(old(world), expr.Expression), expr.Arguments, j), expr.Arguments.nodes[j])
+//@           decreases len(expr.Arguments.nodes) - i@L1
+//@   cut 1: before reflect.TypeOf
+//@           invariant evald(r, expr, fun, old(world)) && (r.this == old(r.this) || (old(r.this) == nil && fresh(r.this)))
+//@           invariant len(args) == nargs(expr) && (forall j int :: 0 <= j && j < len(args) ==> wfv(args[j]))
+//@   loop 2: once invariant evald(r, expr, fun, old(world)) && (r.this == old(r.this) || (old(r.this) == nil && fresh(r.this)))
+//@           invariant sigok(expr, fun, funType, hasVariadic, paramCount, hasContextParam, minArgsCount) && (hasVariadic ? len(args) >= minArgsCount - 1 : len(args) == minArgsCount)
+//@           invariant 0 <= i@L2 && i@L2 <= len(args) && len(callArgs) == i@L2 + hasContextParam
+//@           invariant forall j int :: 0 <= j && j < len(args) ==> wfv(args[j])
+//@           invariant[C03,C11] forall j int :: 0 <= j && j < len(callArgs) ==> rvValid(callArgs[j]) && !rvRO(callArgs[j]) && assignable(rvType(callArgs[j]), paramType(typeOf(fun), j))
+//@           decreases len(args) - i@L2
+//@   cut 2: before (reflect.Type).NumOut
+//@           invariant evald(r, expr, fun, old(world)) && (r.this == old(r.this) || (old(r.this) == nil && fresh(r.this)))
+//@           invariant sigok(expr, fun, funType, hasVariadic, paramCount, hasContextParam, minArgsCount) && (hasVariadic ? len(callArgs) >= paramCount - 1 : len(callArgs) == paramCount)
+//@           invariant[C03,C11] forall j int :: 0 <= j && j < len(callArgs) ==> rvValid(callArgs[j]) && !rvRO(callArgs[j]) && assignable(rvType(callArgs[j]), paramType(typeOf(fun), j))
